@@ -191,4 +191,4 @@ func TestVerifReplay(t *testing.T) {
 
 
 if __name__ == '__main__':
-    main()
+    guarded_main('C19', main)
